@@ -21,8 +21,8 @@ EXPLANATION = (
 ASSUMPTIONS = [
     "the automaton's out_dict / in_dict views are coherent with its graph_dict (property C09)",
     "parse_simple representations (returned words are plain concatenations of labels)",
-    "memo dictionaries are reused only with the same automaton, representation and options (the key is (length, state)); "
-    "reuse across different options is probed separately (known finding D12)",
+    "memo dictionaries are reused only with the same automaton and representation (the repaired code records the options "
+    "in the dict and refuses a mismatch)",
 ]
 
 
@@ -236,6 +236,7 @@ def rand_calls(rng, j, same_options=True, ncalls=None):
     for i in range(ncalls or rng.randint(1, 4)):
         if not same_options and i > 0:
             opt = {"maxlen": rng.random() < 0.5, "with_words": rng.random() < 0.7, "edge_words": rng.random() < 0.8}
+            direction = rng.choice(["default", "start", "end"])
         c = dict(opt, L=pick_L(rng, j), keep=i > 0 and rng.random() < 0.8, start=None, end=None)
         if direction == "start":
             c["start"] = rng.randrange(k)
@@ -343,6 +344,16 @@ def gen_acc(rng, n):
                 j = random_automaton(rng)
         else:
             j = random_automaton(rng)
+        if rng.random() < 0.12:
+            # multi-character generator names (parse_simple=False): every label is one generator name
+            names = list(rng.choice([["s0", "s1", "s2"], ["a1", "b"], ["x", "yy", "zzz"], ["gen"]]))
+            labs = names + [H.swapcase(g) for g in names]
+            k = rng.randint(1, 4)
+            jm = {"graph": [[v, [[l, rng.randrange(k)] for l in labs if rng.random() < 0.5]] for v in range(k)],
+                  "starts": [0] if rng.random() < 0.8 else sorted(rng.sample(range(k), min(2, k)))}
+            specm = H.no_int32(H.rand_spec(rng, ring="Q", simple=False, n=rng.choice([1, 2, 3]), names=names, reassign=False))
+            yield {"aut": jm, "spec": specm, "calls": rand_calls(rng, jm, same_options=rng.random() < 0.7), "multi": True}
+            continue
         edits = rand_edits(rng, j) if rng.random() < 0.35 else []
         spec = rep_spec_for(rng, {"graph": j["graph"] + [[0, [[e[3], 0]]] for e in edits if e[0] == "add"], "starts": j["starts"]},
                             drop=rng.random() < 0.05)      # (renamings permute / case-swap labels: same letters)
@@ -353,7 +364,7 @@ def gen_acc(rng, n):
             k = nstates(j)
             calls = all_option_calls(j, pick_L(rng, j, 120), rng.randrange(k))
         else:
-            calls = rand_calls(rng, j)
+            calls = rand_calls(rng, j, same_options=rng.random() < 0.7)
         yield {"aut": j, "spec": spec, "calls": calls}
 
 
@@ -475,20 +486,25 @@ def judge_free(inp, obs, lr):
 # =====================================================================================
 # oracle: accepted words = reference path enumeration; matrices = images of the words
 # =====================================================================================
-def ref_paths(graph, v, L):
-    """all (word, end) along paths of exactly L edges from v (graph: {state: {label: state}})"""
+def ref_paths(graph, v, L, sep=""):
+    """all (word, end) along paths of exactly L edges from v (graph: {state: {label: state}}); the labels are
+    concatenated (parse_simple words) or joined with "*" (words in multi-character generator names)"""
     out = [("", v)]
     for _ in range(L):
-        out = [(w + lab, nxt) for (w, u) in out for lab, nxt in graph.get(u, {}).items()]
+        out = [(sep.join(x for x in (w, lab) if x), nxt) for (w, u) in out for lab, nxt in graph.get(u, {}).items()]
     return out
 
 
-def ref_words(graph, starts, L, maxlen, start=None, end=None):
+def ref_words(graph, starts, L, maxlen, start=None, end=None, sep=""):
     lens = range(L + 1) if maxlen else [L]
     if end is None:
         s = start if start is not None else starts[0]
-        return [w for l in lens for w, _ in ref_paths(graph, s, l)]
-    return [w for l in lens for s in dict.fromkeys(starts) for w, e in ref_paths(graph, s, l) if e == end]
+        return [w for l in lens for w, _ in ref_paths(graph, s, l, sep)]
+    return [w for l in lens for s in dict.fromkeys(starts) for w, e in ref_paths(graph, s, l, sep) if e == end]
+
+
+def word_letters(w, simple):
+    return list(w) if simple else [g for g in w.split("*") if g]
 
 
 def gen_paths(rng, n):
@@ -499,6 +515,9 @@ def gen_paths(rng, n):
         if rng.random() < 0.4:
             c["end"], c["start"] = rng.randrange(k), None
         inp["calls"] = [c]
+        if inp.get("multi"):
+            yield inp
+            continue
         lab = {"graph": inp["aut"]["graph"] + [[0, [[e[3], 0]]] for e in inp.get("edits", []) if e[0] == "add"],
                "starts": inp["aut"]["starts"]}
         inp["spec"] = rep_spec_for(rng, lab, ring="C" if rng.random() < 0.25 else "Q")
@@ -514,11 +533,12 @@ def run_paths(inp):
                                       end_state=c["end"], edge_words=True)
     mats = np.asarray(mats)
     graph, starts = edited_graph(inp)      # independent of the FSA class
-    want = ref_words(graph, starts, c["L"], c["maxlen"], c["start"], c["end"])
+    simple = inp["spec"]["simple"]
+    want = ref_words(graph, starts, c["L"], c["maxlen"], c["start"], c["end"], "" if simple else "*")
     out = {"words": list(ws), "want": want, "count_ok": len(ws) == len(mats), "nomats": None}
     worst = 0.0
     for w, m in zip(ws, mats):
-        worst = max(worst, float(np.max(np.abs(m - rep[w]))) / (1 + H.norm_bound(rep, list(w))))
+        worst = max(worst, float(np.max(np.abs(m - rep[w]))) / (1 + H.norm_bound(rep, word_letters(w, simple))))
     out["image_err"] = worst
     # without the word list the same matrices come back
     m2 = np.asarray(rep.automaton_accepted(A, c["L"], maxlen=c["maxlen"], with_words=False, start_state=c["start"],
@@ -526,7 +546,9 @@ def run_paths(inp):
     out["nomats"] = bool(m2.shape == mats.shape and (m2.size == 0 or np.allclose(m2, mats, rtol=1e-9, atol=1e-9)))
     if c["end"] is None and c["maxlen"]:
         s = c["start"] if c["start"] is not None else A.start_vertices[0]
-        out["enum"] = sorted(A.enumerate_words(c["L"], start_vertex=s))
+        out["enum"] = sorted(A.enumerate_words(c["L"], start_vertex=s))       # (plain concatenation of the labels)
+        if not simple:
+            out["words_plain"] = sorted(w.replace("*", "") for w in ws)
     return out
 
 
@@ -551,7 +573,7 @@ def judge_paths(inp, obs, lr):
         return {"expected": "matrix k is the image of word k", "observed": obs["image_err"], "tags": dict(tags, what="images")}
     if not obs["nomats"]:
         return {"expected": "with_words=False returns the same matrices", "observed": "different", "tags": dict(tags, what="with_words")}
-    if "enum" in obs and obs["enum"] != sorted(obs["words"]):
+    if "enum" in obs and obs["enum"] != obs.get("words_plain", sorted(obs["words"])):
         return {"expected": obs["enum"][:30], "observed": sorted(obs["words"])[:30], "tags": dict(tags, what="enumerate_words")}
     return None
 
@@ -641,8 +663,19 @@ def run_memo(inp):
     shared = do_calls(rep, A, inp["calls"])
     fresh = do_calls(rep, A, [dict(c, keep=False) for c in inp["calls"]])
     bad = None
+    recorded = None          # the options the shared dict was filled under
     for i, (s, f, c) in enumerate(zip(shared, fresh, inp["calls"])):
+        if not c.get("keep"):
+            recorded = None
+        opts = (c["end"] is None, c["maxlen"], c["with_words"], c["edge_words"])
         es, ef = H.exc_name(s), H.exc_name(f)
+        if recorded is not None and recorded != opts:
+            # a dict filled under other options must not be used: the call has to refuse (ValueError)
+            if es != "ValueError":
+                bad = i
+                break
+            continue
+        recorded = opts
         if es or ef:
             if es != ef:
                 bad = i
@@ -660,9 +693,10 @@ def judge_memo(inp, obs, lr):
         return {"expected": "calls evaluate", "observed": obs, "tags": {"exc": obs["exc"], "memo_reuse": "same_options" if inp["same"] else "different_options"}}
     if obs["bad"] is not None:
         c0 = inp["calls"][0]
-        differs = any((c["maxlen"], c["with_words"], c["edge_words"]) != (c0["maxlen"], c0["with_words"], c0["edge_words"])
-                      for c in inp["calls"][: obs["bad"] + 1])
-        return {"expected": "a call with a reused precomputed dict returns what a call with a fresh dict returns",
+        key = lambda c: (c["end"] is None, c["maxlen"], c["with_words"], c["edge_words"])
+        differs = any(key(c) != key(c0) for c in inp["calls"][: obs["bad"] + 1])
+        return {"expected": "a call with a reused precomputed dict returns what a call with a fresh dict returns, or refuses "
+                            "(ValueError) a dict that was filled under different options",
                 "observed": {"first_bad_call": obs["bad"]},
                 "tags": {"memo_reuse": "different_options" if differs else "same_options"}}
     return None
@@ -786,6 +820,51 @@ def judge_rhist(inp, obs, lr):
     return None
 
 
+# =====================================================================================
+# oracle: representations and automata produced by the library itself (Coxeter groups, both generator styles)
+# =====================================================================================
+def gen_cox(rng, n):
+    for i in range(n):
+        r = rng.choice([2, 3, 3])
+        M = [[1] * r for _ in range(r)]
+        for a in range(r):
+            for b in range(a + 1, r):
+                M[a][b] = M[b][a] = rng.choice([2, 3, 3, 4, 5])
+        yield {"matrix": M, "style": rng.choice(["alpha", "alphanum"]), "shortlex": rng.random() < 0.5,
+               "L": rng.randint(0, 4 if r == 2 else 3), "maxlen": rng.random() < 0.6, "edge_words": rng.random() < 0.7,
+               "end": rng.random() < 0.3}
+
+
+@H.limited(20)
+def run_cox(inp):
+    from geometry_tools import coxeter
+    G = coxeter.CoxeterGroup(matrix=inp["matrix"], generator_style=inp["style"])
+    rep = G.canonical_representation()
+    A = G.automaton(shortlex=inp["shortlex"])
+    simple = inp["style"] == "alpha"
+    verts = list(A.vertices())
+    end = verts[-1] if inp["end"] else None
+    mats, ws = rep.automaton_accepted(A, inp["L"], maxlen=inp["maxlen"], with_words=True, end_state=end,
+                                      edge_words=inp["edge_words"])
+    graph = {v: dict(A.graph_dict[v]) for v in A.graph_dict}
+    want = ref_words(graph, list(A.start_vertices), inp["L"], inp["maxlen"], None, end, "" if simple else "*")
+    err = max([float(np.max(np.abs(np.asarray(m) - np.asarray(rep[w])))) for w, m in zip(ws, np.asarray(mats))] + [0.0])
+    # the Coxeter relations hold for the returned images: every generator is an involution
+    inv = max(float(np.max(np.abs(np.asarray(rep[H.join_word([g, g], simple)]) - np.eye(len(inp["matrix"]))))) for g in G.ordered_gens)
+    return {"words": sorted(ws), "want": sorted(want), "err": err, "inv": inv, "parse_simple": rep.parse_simple}
+
+
+def judge_cox(inp, obs, lr):
+    tags = {"style": inp["style"], "edge_words": inp["edge_words"], "dir": "end" if inp["end"] else "start"}
+    if "exc" in obs:
+        return {"expected": "the group's own representation evaluates the group's own automaton", "observed": obs, "tags": dict(tags, exc=obs["exc"])}
+    if obs["words"] != obs["want"]:
+        return {"expected": obs["want"][:30], "observed": obs["words"][:30], "tags": dict(tags, what="language")}
+    if not obs["err"] <= 1e-7 or not obs["inv"] <= 1e-7:
+        return {"expected": "matrix k is the image of word k", "observed": obs, "tags": dict(tags, what="images")}
+    return None
+
+
 CLAUSES = [
     Clause("accepted_corr", "corr", gen_acc_t, run_acc, judge_acc, lean=lean_acc, site="Representation.automaton_accepted",
            budget={"quick": 200, "thorough": 9000},
@@ -801,6 +880,9 @@ CLAUSES = [
     Clause("free_oracle", "oracle", gen_free, run_freeo, judge_freeo, site="Representation.freely_reduced_elements",
            budget={"quick": 100, "thorough": 4500},
            what="freely_reduced_elements / free_words_of_length return each freely reduced word exactly once, with its image"),
+    Clause("coxeter_oracle", "oracle", gen_cox, run_cox, judge_cox, site="CoxeterGroup.canonical_representation / automaton",
+           budget={"quick": 40, "thorough": 800},
+           what="Coxeter groups of rank 2-3 with generator_style alpha and alphanum (multi-character names, parse_simple=False): canonical_representation().automaton_accepted(group.automaton(), L) for every option vs the reference path enumerator; returned words re-evaluated"),
     Clause("history_oracle", "oracle", gen_rhist, run_rhist, judge_rhist, site="Representation (enumerations on an object with a history)",
            budget={"quick": 150, "thorough": 5000},
            what="two unrelated representations with the same generator names; interleaved freely_reduced_elements / automaton_accepted (start and end state) / elements calls and generator additions / re-assignments on the same objects; every enumeration is compared with a fresh object, every returned array / list is modified in place and the call repeated"),
